@@ -195,6 +195,30 @@ CLAIMED["C14"] = dict(
          "template as well are not judged; 60 s guard per operation (inconclusive on timeout).",
     design_ref="DESIGN.md §4 C14", engine="hypothesis-stateful")
 
+CLAIMED["C07"] = dict(
+    technique="Hypothesis stateful (RuleBasedStateMachine) histories of override operations over several circuit "
+              "instances sharing template objects, checked against a dict model after every step",
+    text="Histories of update_var (scalar, wildcard+array, edge weight), copy-making forks (update_template, deepcopy) and "
+         "transient get_run_func(node_values/edge_values) calls over a circuit, a sibling built from the same template "
+         "objects, optionally one sub-circuit template used for two branches, and the forks: after every step argument "
+         "values by name, y0 and the vector field (edge weights) of EVERY instance must equal that instance's model; a "
+         "final vectorized two-step run is compared with the reference recurrence.",
+    note="Observations compile joint deep copies of the instances (remembered simulation state is by design and would "
+         "mask later initial-value overrides); edge-operator variables of EdgeTemplates are not generated; <=4 instances, "
+         "<=8 operations.",
+    design_ref="DESIGN.md §4 C07", engine="hypothesis-stateful")
+
+CLAIMED["C13"] = dict(
+    technique="Hypothesis stateful (RuleBasedStateMachine) histories over several name-sharing models in one process, "
+              "differential against a fresh Python interpreter executing only the judged model's own operations",
+    text="2-3 generated models sharing operator/node/file/function names (different equations, defaults, node sets or "
+         "weights) are constructed, compiled (NumPy/torch/jax/Fortran), simulated, updated and cleared in drawn orders "
+         "without any reset; every observed result (y0, arguments, vector field, rows, Jacobian) must equal the result "
+         "of the same operation in a fresh interpreter, and functions returned earlier must keep their values.",
+    note="One subprocess per judged model per history (the reference); generated in_edge operator names are compared as "
+         "multisets of values; models that fail in the fresh interpreter are not judged; <=9 operations.",
+    design_ref="DESIGN.md §4 C13", engine="hypothesis-stateful")
+
 NOT_YET = {}
 
 
